@@ -106,7 +106,8 @@ theorem chainValidate_shape {c : Ctx} {t : Tx} (h : chainValidateTx c t = none) 
   · simp at h
   · split at h
     · simp at h
-    · rename_i h1 h2
+    · clear h
+      rename_i h1 h2
       simp only [List.any_eq_true, not_exists, not_and, Bool.not_eq_true] at h1
       have h2' : t.ins.all c.head.has = true := by simpa using h2
       rw [List.all_eq_true] at h2'
